@@ -314,7 +314,8 @@ class Create:
             if kind == 'svd_shape':
                 lay = p.get('layout', 'natural')
                 src = full.reshape(-1) if lay in ('flat', 'natural') else full.reshape(list(full.shape) + [1]) if lay == 'unit_axis' else full.reshape(N[0], -1)
-                return TT(src, shape=list(N), eps=p['eps'])
+                shp = list(np.array(N)) if p['vseed'] % 3 == 0 else list(N)      # a shape computed with numpy is legal too
+                return TT(src, shape=shp, eps=p['eps'])
             return TT(full, eps=p['eps'])
         if kind in ('svd_m', 'svd_m_np'):
             full = gen.dense_from_cores(gen.rand_cores(N, R, dt, g, M))
